@@ -1,0 +1,16 @@
+//go:build verif
+
+package httprule
+
+// Exports for the external verification harness (tag "verif" only).
+
+// VerifTokenize exposes the tokenizer (tokens include the trailing eof token "\x00").
+func VerifTokenize(path string) ([]string, string) { return tokenize(path) }
+
+// VerifString renders a parsed template through its Stringer implementation ("" if not a template).
+func VerifString(c Compiler) string {
+	if t, ok := c.(template); ok {
+		return t.String()
+	}
+	return ""
+}
